@@ -2,7 +2,7 @@
 from lib import *
 
 EXPLANATION = (
-    "D1 MetadataEntry::to_filename / from_filename are mutually inverse tables over the 14 '+' files; "
+    "D1 MetadataEntry::to_filename / from_filename are mutually inverse tables over the 14 '+' files (from_filename as a match on literals, or as a search of a literal table of variants for the one whose to_filename equals the name); "
     "D2 is_valid_pkgdir requires exactly +COMMENT,+CONTENTS,+DESC (files rejected first), Metadata::is_valid tests exactly comment/contents/desc, read_metadata stores each entry in the field of the same name; "
     "D3 PkgDB::next splits the directory name at the LAST '-' and stores prefix->pkgbase, suffix->pkgversion, whole->pkgname; "
     "D4 iteration skeleton: invalid directories continue, a valid one returns one Some(Ok), Package::read_metadata joins its own path with to_filename(entry); is_valid as a loop over a literal table of (field, message) is walked element by element by the evaluator and judged like the if-chain")
@@ -33,6 +33,18 @@ def run(ctx):
     fromf, default_none = {}, None
     for p in ret_paths(ctx.paths(FROMF) or []):
         pos, _ = true_str_lits(p)
+        if not pos:
+            # inverse lookup: the name is compared with to_filename(V) for literal variants V (a table of variants searched with find, or an
+            # if-chain); to_filename(V) is the literal the D1-TO-FILENAME table gives for V
+            for c in p.conds():
+                q = inequality_fact(c)
+                if q is None or q[2]:
+                    continue
+                for a, b in ((q[0], q[1]), (q[1], q[0])):
+                    if is_call(a, TOF) and len(call_args(a)) == 1 and agg_variant(deval(call_args(a)[0])) and agg_variant(deval(call_args(a)[0]))[0] == ME:
+                        lit = tof.get(agg_variant(deval(call_args(a)[0]))[1])
+                        if lit is not None:
+                            pos.append((lit, b))
         if pos:
             some = unwrap_some(p.end[1])
             a = agg_variant(some) if some else None
